@@ -5,19 +5,25 @@ import EpModel.Lemmas.CodecNetRawExt
 import EpModel.Lemmas.Ext
 import EpModel.Model.Dec.Ip
 /-
-  C06, readers vs slices: every `read` function (read programs of Model/Io.lean, namespace `Reads`,
-  tied to the code by the `io.read.*` correspondence of C16) against the `from_slice` of the same
-  header type (Model/Codec/*.lean, tied to the code by the `enc.*` correspondence of C08).
+  C06, readers vs slices: every `read` function (read programs of Model/Io.lean, namespace `Reads`, and
+  `ipHeadersRead`, tied to the code by the `io.read.*` correspondence of C16) against the `from_slice` of the
+  same header type (Model/Codec/*.lean: `enc.*` correspondence of C08; Model/Ipv6Exts.lean `Ext.Exts.fromSlice`:
+  `ext.from_slice` of C12; Model/Dec/Ip.lean `Dec.ipHeadersFromSlice`: `dec.*`).
 
-  Glue defined here (not in Model/): the reader that stands at the start of a byte string and never
-  fails on its own (`readerAt`), the three outcomes of a read program on it (`ReadsOk`, `ReadsEof`,
-  `ReadsContent`), the byte-string semantics of a read program (`evalOn`, with `run_at`), the
-  canonical text of the content errors of the slice decoders (`*.text`, the strings of the driver:
-  Driver/EncNet.lean, `Codec.Err.render`), and the decoding of what the composite readers gather.
+  Glue defined here (not in Model/): the reader that stands at the start of a byte string and never fails on
+  its own (`readerAt`), the three outcomes of a read program on it (`ReadsOk`, `ReadsEof`, `ReadsContent`), the
+  byte-string semantics of a read program (`evalOn`, with `run_at`) and of a limited read program over a
+  `LimitedReader` (`evalOnL`, with `runL_adv`), the canonical text of the content errors of the slice decoders
+  (`linkText`, `ipv4ErrText`, … - the strings of the drivers), and the decoding of what the composite readers
+  gather (`gathered`, `decodeGot`, `GotMatch`, `IpViewMatch`).
 
-  For every header type there is one *table* lemma: for each outcome of the slice decoder, what the
-  read program does on the same bytes.  Since both are functions, the table determines both
-  directions; the theorems of Props/C06.lean are read off it.
+  For every header type there is one *table* lemma (`*_table`): for each outcome of the slice decoder, what the
+  read program does on the same bytes.  Since both are functions, the table determines both directions; the
+  theorems of Props/C06.lean are read off it.  Sections: single headers of the link, transport and network
+  layer; Ipv4Extensions; Ipv6Extensions (`loop_rel`: induction along `Ext.fromSliceLoop` with the reader's
+  free-slot list in step, `fromSliceLoop_take`: the decoder only looks at what it consumes); LimitedReader
+  semantics, the limited extension chain against the struct-mode chain walk `Dec.extsLoop` (`lchain_rel`),
+  and `IpHeaders::read` against `IpHeaders::from_slice` (`ipheaders_table`).
 -/
 namespace EpModel.Lemmas.ReadVsSlice
 open EpModel EpModel.Io
